@@ -65,7 +65,13 @@ Sources == <<
   C("C09", "{% extends 'base2' %}{% use 'up' with box as sidebar %}{% block main %}{{ block('sidebar') }}{% endblock %}"),
   C("C09", "{% extends 'base2' %}{% use 'up' with box as sidebar %}"),
   C("C09", "{% extends 'mid2' %}{% use 'up' with box as sidebar %}{% block main %}{{ block('sidebar') }}|{{ block('box') }}{% endblock %}"),
-  C("C09", "{% extends 'base2' %}{% use 'up' %}{% block main %}{{ block('box') }}{% endblock %}")
+  C("C09", "{% extends 'base2' %}{% use 'up' %}{% block main %}{{ block('box') }}{% endblock %}"),
+  (* a block that renders itself through block() until a counter of its own stops it: each level's text is the captured value, *)
+  (* printed, captured and printed twice, passed through a filter section, and two blocks that render each other (C08)        *)
+  C("C08", "{% set n = 0 %}{% block r %}({{ n }}{% if n < 3 %}{% set n = n + 1 %}{{ block('r') }}{% endif %}){% endblock %}."),
+  C("C08", "{% set n = 0 %}{% block tree %}<{{ n }}{% if n < 2 %}{% set n = n + 1 %}{% set sub %}{{ block('tree') }}{% endset %}{{ sub }}|{{ sub }}{% endif %}>{% endblock %}!"),
+  C("C08", "{% set n = 0 %}{% block f %}a{{ n }}{% if n < 1 %}{% set n = n + 1 %}{% filter up %}{{ block('f') }}{% endfilter %}{% endif %}z{% endblock %}"),
+  C("C08", "{% set n = 0 %}{% block p %}p{{ n }}{% if n < 2 %}{% set n = n + 1 %}{{ block('q') }}{% endif %}{% endblock %}/{% block q %}q[{{ block('p') }}]{% endblock %}")
 >>
 Picked == 1..Len(Sources)
 Init == GenInit(v_lvl, v_idx)
